@@ -190,3 +190,47 @@ fn c19_table_options_neutral() {
         _ => vassert!(false, "C19: which aircraft are in the table depends on a presentation option"),
     }
 }
+
+// @harness props=C03,C12 tier=quick cap=1500
+// two squitters of ONE aircraft into an empty table - a DF17 then a DF18 (CF symbolic), both of a type
+// code the decoder does not interpret - with -U/-R symbolic: exactly one row, stored under and carrying
+// the 24-bit address (no second row for a differently qualified key)
+#[cfg_attr(kani, kani::proof)]
+#[cfg_attr(kani, kani::unwind(33))]
+#[cfg_attr(kani, kani::stub(chrono::Utc::now, crate::verif::rt::stub_now))]
+#[cfg_attr(kani, kani::stub(crate::decoder::get_downlink_format, crate::decoder::vh::rows::stub_get_df))]
+#[cfg_attr(kani, kani::stub(crate::decoder::utils::get_message_type, crate::decoder::vh::rows::stub_get_tc))]
+#[cfg_attr(kani, kani::stub(crate::decoder::country::country_icao_mask::icao_to_country, stub_country))]
+#[cfg_attr(verif_replay, test)]
+fn c03_table_one_row_per_address() {
+    let a = frame28();
+    let b = frame28();
+    assume(bits(&a, 1, 5) == 17 && bits(&b, 1, 5) == 18);
+    assume(bits(&a, 33, 37) == 28 && bits(&b, 33, 37) == 28);
+    let x = bits(&a, 9, 32) as u32;
+    assume(x != 0 && bits(&b, 9, 32) as u32 == x);
+    let use_update = any_bool();
+    let relaxed = any_bool();
+    let args = mk_args(use_update, relaxed, 0);
+    let mut planes = Planes::new();
+    unsafe {
+        PIN_DF = 17;
+        PIN_TC = 28;
+    }
+    let Some(ia) = crate::get_icao(&a, 17) else { return };
+    let da = downlink_of(&a, 1);
+    planes.update_aircraft(&da, &a, 17, ia, &args);
+    unsafe { PIN_DF = 18 };
+    let Some(ib) = crate::get_icao(&b, 18) else { return };
+    let db = downlink_of(&b, 0);
+    planes.update_aircraft(&db, &b, 18, ib, &args);
+    let t = planes.aircrafts.read().unwrap();
+    vcover!(bits(&b, 6, 8) == 1, "DF18 with CF=1");
+    vcover!(use_update, "-U");
+    vassert!(ia == x && ib == x, "C03: the squitters are not attributed to their AA field");
+    vassert!(t.len() == 1, "C03: two frames of one address do not end up in exactly one row");
+    match t.get(&x) {
+        Some(r) => vassert!(r.icao == x, "C03: the row stored under the address carries another address"),
+        None => vassert!(false, "C03: no row stored under the frame's address"),
+    }
+}
